@@ -103,6 +103,26 @@ def point_sets(draw, length, nmin=2, nmax=30, two_lists=True, n2max=30, families
                 pts.append((_wrap(c[0] + (i * pitch + e1) / cosd), _clipdec(c[1] + j * pitch + e2)))
             return pts
         p1, p2 = lat(n1), lat(n2)
+    elif fam == 'polar-ring':
+        # a ring of first-list points just below a polar cap of the chunk grid; each second-list point sits 0.97-0.9995 match
+        # lengths from one of them, mostly along RA and slightly equatorward: pairs that straddle RA cell edges where the
+        # margin has to be computed with the most polar declination of the slice
+        sgn = draw(st.sampled_from([1, -1]))
+        d0 = 90.0 - L * draw(st.sampled_from([3.5, 4.0, 5.0, 6.5]))
+        d0 = max(60.0, d0)
+        ra0 = 180.0 * (1 + draw(unitf))
+        p1 = [(_wrap(ra0 + 360.0 * k / n1 + 3 * draw(unitf)), sgn * _clipdec(d0 + 0.2 * L * draw(unitf))) for k in range(n1)]
+        p2 = []
+        for k in range(n2):
+            b = p1[k % n1]
+            f = draw(st.sampled_from([0.97, 0.985, 0.99, 0.995, 0.999, 0.9995, 1.001, 1.01]))
+            brg = math.radians(draw(st.sampled_from([90.0, -90.0, 80.0, -80.0, 100.0, -100.0, 95.0, -95.0])) + 5 * draw(unitf))
+            d1 = math.radians(abs(b[1]))
+            s_ = math.radians(f * L)
+            sd2 = max(-1.0, min(1.0, math.sin(d1) * math.cos(s_) + math.cos(d1) * math.sin(s_) * math.cos(brg)))
+            d2 = math.asin(sd2)
+            r2 = b[0] + math.degrees(math.atan2(math.sin(brg) * math.sin(s_) * math.cos(d1), math.cos(s_) - math.sin(d1) * sd2))
+            p2.append((_wrap(r2), sgn * _clipdec(math.degrees(d2))))
     else:  # chain: consecutive separations 0.7-1.1 L along a direction, shuffled
         c = (draw(st.sampled_from([0.0, 359.9, 100.0, 200.0])) + draw(unitf), 75 * draw(unitf))
         ang = draw(st.sampled_from([0.0, math.pi / 2, math.pi / 4, 2.0]))
